@@ -1,0 +1,128 @@
+//go:build verif
+
+package core
+
+import (
+	"strconv"
+
+	"com.tuntun.rangers/node/src/common"
+	"com.tuntun.rangers/node/src/executor"
+	"com.tuntun.rangers/node/src/middleware/log"
+	"com.tuntun.rangers/node/src/middleware/types"
+	"com.tuntun.rangers/node/src/service"
+	"com.tuntun.rangers/node/src/storage/account"
+	"com.tuntun.rangers/node/src/utility"
+)
+
+// verif hook H4: in-package exports used by the verification harness only.
+
+// VerifInitChain performs the parts of InitCore that build the block chain and
+// the group chain over the stores of the current working directory, without
+// the sync processor (whose timers need the network layer). Calling it in a
+// fresh process over existing stores is a node restart.
+func VerifInitChain(helper types.ConsensusHelper) error {
+	idx := strconv.Itoa(common.InstanceIndex)
+	logger = log.GetLoggerByIndex(log.CoreLogConfig, idx)
+	txLogger = log.GetLoggerByIndex(log.TxLogConfig, idx)
+	syncLogger = log.GetLoggerByIndex(log.SyncLogConfig, idx)
+	syncHandleLogger = log.GetLoggerByIndex(log.SyncHandleLogConfig, idx)
+	rewardLog = log.GetLoggerByIndex(log.RewardLogConfig, idx)
+	consensusHelper = helper
+
+	blockChainImpl = nil
+	groupChainImpl = nil
+	if err := initBlockChain(); err != nil {
+		return err
+	}
+	initGroupChain()
+	executor.InitExecutors()
+	service.InitRewardCalculator(blockChainImpl, groupChainImpl, nil)
+	service.InitRefundManager(groupChainImpl, nil)
+	return nil
+}
+
+// VerifInitGroupChain builds only the group chain (C19).
+func VerifInitGroupChain(helper types.ConsensusHelper) {
+	idx := strconv.Itoa(common.InstanceIndex)
+	logger = log.GetLoggerByIndex(log.CoreLogConfig, idx)
+	consensusHelper = helper
+	groupChainImpl = nil
+	initGroupChain()
+}
+
+// VerifRemoveLastGroup runs the unexported remove on the current last group.
+func VerifRemoveLastGroup() bool {
+	chain := groupChainImpl
+	chain.lock.Lock()
+	defer chain.lock.Unlock()
+	return chain.remove(chain.lastGroup)
+}
+
+// VerifRemoveGroupsFrom removes groups from the top down to (excluding) the
+// group with the given id, the way a group fork switch does.
+func VerifRemoveGroupsFrom(ancestorId []byte) int {
+	chain := groupChainImpl
+	chain.lock.Lock()
+	defer chain.lock.Unlock()
+	n := 0
+	for chain.lastGroup != nil && string(chain.lastGroup.Id) != string(ancestorId) {
+		if !chain.remove(chain.lastGroup) {
+			break
+		}
+		n++
+	}
+	return n
+}
+
+// VerifGroupRawIndex reads the raw height index entry (nil when absent).
+func VerifGroupRawIndex(height uint64) []byte {
+	id, _ := groupChainImpl.groups.Get(generateKey(height))
+	return id
+}
+
+// VerifExecuteBlock executes the block's transactions on state exactly as
+// block verification / casting does and returns the executor's outputs.
+func VerifExecuteBlock(state *account.AccountDB, block *types.Block, situation string) (common.Hash, []common.Hash, []*types.Transaction, []*types.Receipt) {
+	return newVMExecutor(state, block, situation).Execute()
+}
+
+func VerifCalcTxTree(txs []*types.Transaction) common.Hash { return calcTxTree(txs) }
+
+func VerifCalcReceiptsTree(receipts types.Receipts) common.Hash { return calcReceiptsTree(receipts) }
+
+// VerifRemoveFromCommonAncestor exposes the reorg removal loop.
+func VerifRemoveFromCommonAncestor(ancestor *types.BlockHeader) {
+	blockChainImpl.removeFromCommonAncestor(ancestor)
+}
+
+// VerifBlockMarks reports whether the add / remove intent marks are present.
+func VerifBlockMarks() (add bool, remove bool) {
+	a, _ := blockChainImpl.hashDB.Get([]byte(addBlockMark))
+	r, _ := blockChainImpl.hashDB.Get([]byte(removeBlockMark))
+	return a != nil, r != nil
+}
+
+// VerifRawHeightHeader reads the height index bypassing the LRU cache.
+func VerifRawHeightHeader(height uint64) *types.BlockHeader {
+	return blockChainImpl.QueryBlockHeaderByHeight(height, false)
+}
+
+// VerifRawHeadRecord reads the persisted head record.
+func VerifRawHeadRecord() *types.BlockHeader {
+	return blockChainImpl.QueryBlockHeaderByHeight([]byte(latestBlockKey), false)
+}
+
+// VerifHasVerifyHash reports whether a verify hash is stored for the height.
+func VerifHasVerifyHash(height uint64) bool {
+	raw, _ := blockChainImpl.verifyHashDB.Get(utility.UInt64ToByte(height))
+	return raw != nil
+}
+
+// VerifCloseGroupChain releases the joined-groups store so that the group
+// chain can be initialised again in the same process (a restart).
+func VerifCloseGroupChain() {
+	if groupChainImpl != nil && groupChainImpl.joinedGroups != nil {
+		groupChainImpl.joinedGroups.Close()
+	}
+	groupChainImpl = nil
+}
